@@ -382,9 +382,50 @@ def k4b_replace_uninterpreted(s: str, e: str, r0: str, r1: str, r2: str, u0: boo
 _ALL_RX = ['a', 'dot', '^a', 'a|b', '[ab]+', '.*', 'a.', '\\.', 'ab']
 
 
-def _name(tree, is_m) -> str:
-    r = L.render_matcher(tree) if is_m else L.render_transformer(tree)
-    return r.replace(' ', '_').replace('\n', '\\n').replace('\t', '\\t')
+_RX_NAME = {'a': 'a', 'dot': 'dot', '^a': 'caret-a', 'a|b': 'a-or-b', '[ab]+': 'ab-plus', '.*': 'dot-star',
+            'a.': 'a-dot', '\\.': 'esc-dot', 'ab': 'ab', 'b': 'b', 'RX': 'RX'}
+_OP_NAME = {'==': 'eq', '!=': 'ne', '<': 'lt', '<=': 'le', '>': 'gt', '>=': 'ge'}
+
+
+def _lit_name(text: str) -> str:
+    if text == '':
+        return 'EMPTY'
+    return text.replace('\n', 'NL').replace(' ', 'SP').replace('\t', 'TAB')
+
+
+def _name(t, is_m=None) -> str:
+    """a shell-safe, unique name of an expression tree (letters, digits, . + - only)"""
+    k = t[0]
+    if k == 'empty':
+        return 'is-empty'
+    if k == 'equals':
+        return 'equals-E'
+    if k == 'equals-lit':
+        return 'equals-lit-' + _lit_name(t[1])
+    if k == 'matches':
+        return 'matches-' + ('full-' if t[1] else '') + _RX_NAME[t[2]]
+    if k == 'numlines':
+        return 'num-lines-' + _OP_NAME[t[1]]
+    if k == 'linenum':
+        return 'line-num-' + _OP_NAME[t[1]]
+    if k in ('every', 'any', 'contents', 'not', 'filter'):
+        return k + '.' + _name(t[1])
+    if k == 'U':
+        return 'U'
+    if k in ('and', 'or'):
+        return k + '.' + '+'.join(_name(x) for x in t[1:]) + '.' + k[0]
+    if k == 'on':
+        return 'on.' + _name(t[1]) + '.then.' + _name(t[2])
+    if k == 'replace':
+        _, preserve, sel, rx, repl = t
+        return 'replace' + ('-p' if preserve else '') + ('-at.' + _name(sel) + '.' if sel is not None else '.') + \
+               _RX_NAME[rx] + '.to-' + ('E' if repl == 'E' else _lit_name(repl))
+    if k == 'grep':
+        return 'grep-' + _RX_NAME[t[1]]
+    if k == 'seq':
+        return '.pipe.'.join(_name(x) for x in t[1:])
+    return {'identity': 'identity', 'strip': 'strip', 'strip-ts': 'strip-trailing-space',
+            'strip-tnl': 'strip-trailing-new-lines', 'upper': 'to-upper', 'lower': 'to-lower'}[k]
 
 
 def _alpha_descr(a: str) -> str:
@@ -430,7 +471,8 @@ def obligations(tier: str) -> List[Ob]:
         if L.uses(tree, 'matches') or L.uses(tree, 'grep') or L.uses(tree, 'replace'):
             outside.append(OUT_RE)
         obs.append(Ob(
-            name='%s:%s' % (kernel, name or _name(tree, is_m)), fn=fn, case=case, kernel=kernel, bound=bound,
+            name='%s:%s' % (kernel, name or _name(tree)), fn=fn, case=case, kernel=kernel,
+            bound=bound.replace('\n', '\\n').replace('\t', '\\t'),
             timeout=timeout, expect=expect,
             real=tuple((REAL_PARSE_M if is_m else REAL_PARSE_T)) + tuple(_reals(tree)) + (REAL_K7 if fn == 'k7_assertion' else ()),
             stubs=tuple(stubs), outside=tuple(outside),
@@ -438,11 +480,13 @@ def obligations(tier: str) -> List[Ob]:
                    'parse_string_matcher.parsers().full -> matches_w_trace(text)' if is_m else
                    'parse_string_transformer.parsers().full -> transform(text).contents()')))
 
+    tscale = 1 if quick else 8
+
     def m(kernel, tree, maxlen=None, timeout=300, **kw):
-        add(kernel, 'km_matcher', tree, maxlen or n_std, timeout, **kw)
+        add(kernel, 'km_matcher', tree, maxlen or n_std, timeout * tscale, **kw)
 
     def t(kernel, tree, maxlen=None, timeout=300, **kw):
-        add(kernel, 'kt_transformer', tree, maxlen or n_std, timeout, **kw)
+        add(kernel, 'kt_transformer', tree, maxlen or n_std, timeout * tscale, **kw)
 
     # ---- K1
     m('K1', ('empty',), n_cheap)
@@ -530,7 +574,7 @@ def obligations(tier: str) -> List[Ob]:
 
     # ---- K7
     def a7(tree, maxlen=None, timeout=300, **kw):
-        add('K7', 'k7_assertion', tree, maxlen or n_std, timeout, **kw)
+        add('K7', 'k7_assertion', tree, maxlen or n_std, timeout * tscale, **kw)
 
     a7(('empty',), n_cheap)
     a7(('equals',), maxlen_e=1 if quick else 2)
